@@ -354,6 +354,7 @@ func init() {
 	Properties["C16"] = &PropertySpec{
 		Modules: bt,
 		Rules: []Rule{
+			R69(),
 			Only(R59(), `^c/`, `^e/`),
 			Only(R55(), `^b/`, `^c/`),
 			R47(),
